@@ -595,6 +595,34 @@ func consumers(c *harness.Ctx, rng *rand.Rand, dir string, s desync.Store, blob 
 			return
 		}
 	}
+	// a new sparse file pre-loaded from the state file of an earlier mount that had read everything
+	stateFile := filepath.Join(dir, "sparse.state")
+	st := bytes.Repeat([]byte{0xff}, (len(idx.Chunks)+7)/8)
+	dsu.WriteFile(stateFile, st)
+	sf2, err := desync.NewSparseFile(filepath.Join(dir, "sparse2.cache"), idx, s, desync.SparseFileOptions{StateInitFile: stateFile, StateInitConcurrency: 1 + rng.Intn(4)})
+	if err == nil {
+		h, _ := sf2.Open()
+		failed := false
+		for round := 0; round < 2; round++ { // (the pre-loading runs in the background: read everything twice)
+			for pos := 0; pos < len(blob); pos += 600 {
+				b := make([]byte, 600)
+				n, rerr := h.ReadAt(b, int64(pos))
+				if rerr != nil && rerr != io.EOF {
+					failed = true
+					continue
+				}
+				if !bytes.Equal(b[:n], blob[pos:min(pos+600, len(blob))]) {
+					c.Violation("consumer-sparse-preload", "sparse file pre-loaded from a state file: read at %d returned nil error and bytes that differ from the blob", pos)
+					return
+				}
+			}
+		}
+		h.Close()
+		if !failed {
+			c.Violation("consumer-sparse-preload", "every read of the pre-loaded sparse file succeeded over a poisoned store")
+			return
+		}
+	}
 	c.Count("consumer_runs", 1)
 	_ = strings.TrimSpace
 }
